@@ -60,6 +60,12 @@ CHECKS = {
  "C16": ("e5 net", "model_checking", "exhaustive connection-state x shutdown-moment x release-order enumeration on the real server",
          "1 and 2 connections, each in one of: idle (0 or 1 commands done), every strict prefix of a request sent, command held before the store, command held after the store call, two pipelined requests with the first held, an 8 MiB reply stalled on a client that does not read; then the shutdown signal; then every order of the remaining release/resume events. run() must not return while a command is in flight and must return once everything is released; in-flight commands are answered completely and never torn; every client's stream parses as complete replies then end of stream; acknowledged commands are in the store; incomplete requests change nothing.",
          "A client that never resumes reading keeps run() waiting (the statement conditions termination on connections winding down).", "DESIGN.md §5 E5, §6 C16"),
+ "C17": ("e6 vtime", "model_checking", "exhaustive enumeration of drop moments (worker asleep, every hook gate, every hook point inside a running background merge/sync) x worker configurations in virtual time, with a global system-call recorder",
+         "Worker configuration {trigger met, not met, merge never} x {no sync task, interval sync} x drop placed before tick 1..3 while the worker sleeps an hour (virtual) before its next timer, while it is held at each hook gate, and while a background merge or sync is held at EVERY hook point inside it. Relative to the moment the drop returned: every operation on a retained handle fails with 'closed', the old instance issues no mutating system call, the worker thread is gone within 2 s real time, the directory re-opens at once and reads as the map model immediately, after the old operation completed and after a further re-open; 2|20 open/close cycles leave thread and descriptor counts unchanged.",
+         "Gate positions are hook points (before each lock acquisition / loop iteration), not every instruction; 'promptly' = 2 s real time.", "DESIGN.md §5 E6, §6 C17"),
+ "C18": ("e6 vtime", "model_checking", "exhaustive configuration grid of the background worker executed in virtual time (interposed clock_gettime / epoll_wait), worker held at every tick, reference trigger predicate",
+         "Policy {never, always, window in, window out} x trigger crossing {none, dead bytes, fragmentation, both} placed at tick k in 1..3 x check interval {1 ms .. 1 h} x jitter {0, 0.3, 1} x sync {none, always, interval}, horizon 5|10 ticks (1 413 | ~1 900 configurations): at every tick the spacing lies in interval*(1 +- jitter), can_merge() equals a reference predicate on the counters, a merge starts at exactly the first tick where predicate and policy allow and at no other, never under 'never' / outside the window; interval sync keeps consecutive fsyncs at most one interval apart and stops after the drop.",
+         "Virtual time trusts clock_gettime/epoll_wait to be the worker's only time sources; jitter samples observed not enumerated; real-time scheduling latency not measured.", "DESIGN.md §5 E6, §6 C18"),
 }
 
 NOT_YET = {
